@@ -77,7 +77,7 @@ var (
 )
 
 type c05Graph struct {
-	decls []*world.Decl            // config order
+	decls []*world.Decl       // config order
 	deps  map[string][]string // dependent -> referenced integrations
 }
 
@@ -327,15 +327,16 @@ func (p *c05Prep) lookup() world.RefLookup {
 // ---- one execution -----------------------------------------------------------------------------------
 
 type c05Result struct {
-	vio      *fw.Violation
-	outcome  string
-	harness  string
-	trans    int64
-	rows     int
-	moves    int // cursor moves committed by dependents
-	noops    int // steps of a dependent that did nothing because a referenced integration had no position
-	lookups  int
-	diverged string
+	vio       *fw.Violation
+	outcome   string
+	harness   string
+	trans     int64
+	rows      int
+	moves     int // cursor moves committed by dependents
+	noops     int // steps of a dependent that did nothing because a referenced integration had no position
+	lookups   int
+	outsideTx int // reference look-ups issued outside an open transaction (not judged: equivalent under READ COMMITTED)
+	diverged  string
 }
 
 func c05Names(j c05Job) []string {
@@ -422,6 +423,10 @@ func c05Exec(j c05Job, p *c05Prep, ch vrt.Chooser, states *vrt.StateSet, trace, 
 				lookupNo[base] = 0
 			case strings.HasPrefix(strings.TrimSpace(b.SQL[0]), "select true from"):
 				lookupNo[base]++
+				res.lookups++
+				if !b.InTx {
+					res.outsideTx++
+				}
 			}
 		}
 		f := pgGate(b)
@@ -600,11 +605,6 @@ func c05Exec(j c05Job, p *c05Prep, ch vrt.Chooser, states *vrt.StateSet, trace, 
 			ths = append(ths, env)
 		}
 		w.V.Join(ths...)
-		for _, q := range w.PG.SQLLog() {
-			if strings.Contains(q, "select true from") {
-				res.lookups++
-			}
-		}
 	})
 	res.trans = w.V.Transitions
 	if trace && os.Getenv("C05_TRACE") != "" {
@@ -639,13 +639,29 @@ func c05Exec(j c05Job, p *c05Prep, ch vrt.Chooser, states *vrt.StateSet, trace, 
 	return res
 }
 
-func c05Bounds(thorough bool) explore.Bounds {
-	var b explore.Bounds
-	b[0], b[vrt.KPreempt] = 1, 1
-	if thorough {
-		b[0], b[vrt.KPreempt] = 2, 2
+type c05Mode struct {
+	b      explore.Bounds
+	fullIO bool // dependents are preemptible before EVERY SQL batch / RPC exchange
+}
+
+// quick: <= 1 preemption at the non-commuting operations of the dependents.
+// thorough: <= 1 preemption at EVERY I/O operation of the dependents for every job, and
+// <= 2 preemptions at the non-commuting operations for the jobs whose schedule space stays small
+// (two-thread jobs without head growth; three-thread jobs of the graphs two / chain / unrelated
+// without head growth and with at most 5 steps in total).
+func c05Modes(j c05Job, thorough bool) []c05Mode {
+	var b1, b2 explore.Bounds
+	b1[0], b1[vrt.KPreempt] = 1, 1
+	b2[0], b2[vrt.KPreempt] = 2, 2
+	if !thorough {
+		return []c05Mode{{b1, false}}
 	}
-	return b
+	ms := []c05Mode{{b1, true}}
+	w := c05Weight(j)
+	if w <= 60 || (w <= 170 && !j.Grow && j.Graph != "two-or") {
+		ms = append(ms, c05Mode{b2, false})
+	}
+	return ms
 }
 
 func c05Run(c *fw.Ctx) {
@@ -660,9 +676,9 @@ func c05Run(c *fw.Ctx) {
 			return
 		}
 	}
-	b := c05Bounds(c.Thorough())
 	c.Bound("jobs", len(jobs))
-	c.Bound("preemptions", b[vrt.KPreempt])
+	c.Bound("preemptions", map[bool]int{false: 1, true: 2}[c.Thorough()])
+	c.Bound("io_granularity_every_sql_and_rpc", c.Thorough())
 	c.Bound("chain_blocks", 3)
 	for _, j := range jobs {
 		if !c.Mine() {
@@ -676,47 +692,51 @@ func c05Run(c *fw.Ctx) {
 			c.HarnessError("prepare %+v: %v", j, err)
 			return
 		}
-		states := vrt.NewStateSet()
-		k := c05Case{Job: j, Bounds: b, FullIO: c.Thorough()}
-		st := explore.Explore(b, true, func(r *explore.Run) bool {
-			res := c05Exec(j, p, r, states, false, k.FullIO)
-			if res.harness != "" {
-				c.HarnessError("job %+v choices %v: %s", j, r.Trimmed(), res.harness)
-				return false
+		for _, mode := range c05Modes(j, c.Thorough()) {
+			b := mode.b
+			states := vrt.NewStateSet()
+			k := c05Case{Job: j, Bounds: b, FullIO: mode.fullIO}
+			st := explore.Explore(b, true, func(r *explore.Run) bool {
+				res := c05Exec(j, p, r, states, false, k.FullIO)
+				if res.harness != "" {
+					c.HarnessError("job %+v choices %v: %s", j, r.Trimmed(), res.harness)
+					return false
+				}
+				if r.Diverged != "" {
+					c.HarnessError("HARNESS-NONDETERMINISM job %+v: %s", j, r.Diverged)
+					return false
+				}
+				c.Eval(res.moves > 0 && res.rows > 0)
+				c.Outcome(res.outcome)
+				c.Res.Transitions += res.trans
+				c.Res.Traces++
+				c.Count("dependent_cursor_moves", int64(res.moves))
+				c.Count("dependent_noop_steps_without_dependency_position", int64(res.noops))
+				c.Count("reference_lookups", int64(res.lookups))
+				c.Count("reference_lookups_outside_a_transaction", int64(res.outsideTx))
+				if res.vio != nil {
+					jb, _ := json.Marshal(j)
+					c.Violation("C05", res.vio.Class, res.vio.Key, fmt.Sprintf("job %s schedule %v\n%s", jb, r.Trimmed(), res.vio.Detail), c05Case{Job: j, Bounds: b, FullIO: k.FullIO, Choices: r.Choices()})
+				}
+				if c.Res.Evaluations%20011 == 1 {
+					c.Sample(map[string]any{"job": j, "schedule": r.Trimmed(), "outcome": res.outcome})
+				}
+				return !c.Expired()
+			})
+			c.Res.States += int64(states.Len())
+			if dbg := os.Getenv("C05_DEBUG"); dbg != "" {
+				f, _ := os.OpenFile(dbg, os.O_APPEND|os.O_CREATE|os.O_WRONLY, 0o644)
+				fmt.Fprintf(f, "job %+v mode %+v: executions=%d points=%d maxdepth=%d complete=%v\n", j, mode, st.Executions, st.Points, st.MaxDepth, st.Complete)
+				f.Close()
 			}
-			if r.Diverged != "" {
-				c.HarnessError("HARNESS-NONDETERMINISM job %+v: %s", j, r.Diverged)
-				return false
+			if !st.Complete {
+				c.Cap("time-budget")
+				return
 			}
-			c.Eval(res.moves > 0 && res.rows > 0)
-			c.Outcome(res.outcome)
-			c.Res.Transitions += res.trans
-			c.Res.Traces++
-			c.Count("dependent_cursor_moves", int64(res.moves))
-			c.Count("dependent_noop_steps_without_dependency_position", int64(res.noops))
-			c.Count("reference_lookups", int64(res.lookups))
-			if res.vio != nil {
-				jb, _ := json.Marshal(j)
-				c.Violation("C05", res.vio.Class, res.vio.Key, fmt.Sprintf("job %s schedule %v\n%s", jb, r.Trimmed(), res.vio.Detail), c05Case{Job: j, Bounds: b, FullIO: k.FullIO, Choices: r.Choices()})
-			}
-			if c.Res.Evaluations%20011 == 1 {
-				c.Sample(map[string]any{"job": j, "schedule": r.Trimmed(), "outcome": res.outcome})
-			}
-			return !c.Expired()
-		})
-		c.Res.States += int64(states.Len())
-		if dbg := os.Getenv("C05_DEBUG"); dbg != "" {
-			f, _ := os.OpenFile(dbg, os.O_APPEND|os.O_CREATE|os.O_WRONLY, 0o644)
-			fmt.Fprintf(f, "job %+v: executions=%d points=%d maxdepth=%d complete=%v\n", j, st.Executions, st.Points, st.MaxDepth, st.Complete)
-			f.Close()
+			c.Count("job_modes_completed", 1)
+			c.Count("lock_contentions", vrt.Contentions)
+			vrt.Contentions = 0
 		}
-		if !st.Complete {
-			c.Cap("time-budget")
-			return
-		}
-		c.Count("jobs_completed", 1)
-		c.Count("lock_contentions", vrt.Contentions)
-		vrt.Contentions = 0
 	}
 }
 
